@@ -197,6 +197,21 @@ func tagScanRules(c *core.Ctx, r *core.Report, rule string) {
 	trs.report(c, r, tfn, func(string) string { return rule }, "tag-scan-table@"+core.FnName(tfn), tagScanRows)
 }
 
+// tagScanPerComponentRules: the per-component row of the tag scanner table.
+func tagScanPerComponentRules(c *core.Ctx, r *core.Report, rule string) {
+	trs, _, tfn, tund := tagScanTable(c)
+	if tund != "" {
+		r.Undecided(rule, "tag-scan-table", "", "abstract interpretation left the model: "+tund)
+		return
+	}
+	trs.report(c, r, tfn, func(row string) string {
+		if row == "per-component" {
+			return rule
+		}
+		return ""
+	}, "tag-scan-table@"+core.FnName(tfn), map[string]string{"per-component": tagScanRows["per-component"]})
+}
+
 // presenceRules: the placeholder callback's presence rule (configured value vs default).
 func presenceRules(c *core.Ctx, r *core.Report, rule string) {
 	n := 0
